@@ -11,7 +11,7 @@ One scene is simulated with `fdtdx.run_fdtd` under several descriptions of the *
   realvol   UniformGrid(spacing=d) with the volume given by partial_real_shape = n*d instead of cell counts
 
 Oracle (differential): final E, H, every detector record, the material arrays, dt and the number of steps agree
-with the reference to 1e-12 (f64 lane) / 1e-5 (f32 lane) relative to the reference's magnitude.
+with the reference to 1e-12 (f64 lane) / 1e-4 (f32 lane) relative to the reference's magnitude.
 """
 
 from __future__ import annotations
@@ -36,7 +36,7 @@ RULE = (
 )
 ASSUMPTIONS = [
     "'up to round-off' is read as 1e-12 relative to max|reference| in float64 (probe: bit-identical or 1e-18) and "
-    "1e-5 in float32 (explicit float64 edge lists are stored as float32 there)",
+    "1e-4 in float32 (explicit float64 edge lists are stored as float32 there; observed <= 2e-6)",
     "an explicit RectilinearGrid may start at 0 or be centred: the property speaks of equal spacings only, so a "
     "translation of the edge coordinates is part of 'equivalent'",
     "shapes are even on every axis because QuasiUniformGrid.resolve documents that it rejects odd cell counts",
@@ -164,7 +164,7 @@ def _materials(arrays):
 def body(ctx, case):
     spec = case["scene"]
     lane = ctx.lane
-    tol = ctx.tol(1e-12, 1e-5)
+    tol = ctx.tol(1e-12, 1e-4)
     ref_objs, ref, ref_cfg = _run(spec, lane, "uniform")
     E0, H0 = np.asarray(ref.fields.E), np.asarray(ref.fields.H)
     rec0 = _records(ref)
@@ -210,3 +210,5 @@ SUBS = [
         lanes=("f64", "f32"), f32_fraction=0.25, quick_shards=2,
         rule="one random scene under UniformGrid / QuasiUniformGrid / explicit RectilinearGrid descriptions"),
 ]
+
+KNOWN_CLASSES = {}
